@@ -14,7 +14,7 @@ import Gonuts.Model.Wire
          DEC = (ok PARSED) | syntax | type | empty | other
          PARSED = none | (mintquote amt unit pk) | (mint q outs sig) | (swap ps outs [verdict]) | (meltquote inv unit mpp)
                 | (melt q ps) | (checkstate ys) | (restore outs)
-       → (status "body" info (storage-trace…) (lightning-calls…) cacheLen)
+       → (status "body" (storage-trace…) (lightning-calls…) cacheLen info)
     (wire.advance ns) (wire.tick stale) (wire.newserver)
     (wire.cache.set "k" "v" durNs) (wire.cache.get "k") (wire.cache.delexp) (wire.cache.len) (wire.cache.reset)
 -/
@@ -98,8 +98,8 @@ def handleSt (st : WSt) (cmd : String) (args : List Sexp) : Option (WSt × Sexp)
          | _ => s1.mint.w.ln.calls)
       else []
     let trace := if ranMint inf then s1.mint.w.trace else []
-    some ({ s := s1 }, l [Sexp.ofNat resp.status, .str resp.body, a (infoAtom inf), l (trace.map a), l (calls.map callSx),
-                          Sexp.ofNat s1.cache.length])
+    some ({ s := s1 }, l [Sexp.ofNat resp.status, .str resp.body, l (trace.map a), l (calls.map callSx),
+                          Sexp.ofNat s1.cache.length, a (infoAtom inf)])
   | "wire.advance", [dt] => do some ({ s := advance st.s (← int? dt) }, l [a "ok"])
   | "wire.tick", [stale] => do
     let s1 := tick st.s (← stale.asBool?)
